@@ -28,10 +28,17 @@ EXPLANATION = ('translation validation: the Coq function check_frame (computes a
                '(c06_check_alloc_sound: lock-step simulation, every live register agrees, every read returns the '
                'virtual program\'s value; c06_compact_sound: deleting the no-op entries; c06_liveness_fixpoint_sound; '
                'c06_no_shared_live + c06_shared_are_copies) and is run on every frame (last colouring round) the real '
-               'allocator produces for the generated programs. Spill-code insertion (rewrite_program, earlier rounds) is '
-               'validated per frame by a Python structural check; in Coq only the local one-instruction lemma '
-               'c06_spill_block_sound_partial is proved (no whole-program spill simulation, no memory model of the '
-               'target\'s load/store instructions). Pairs of two physical registers named by the input program are not '
+               'allocator produces for the generated programs. Spill-code insertion (rewrite_program, every earlier round) '
+               'is validated by a second verified validator check_spill (fact certificate per program point; '
+               'c06_check_spill_sound: the rewritten program simulates the program before the round for every '
+               'semantics/state: non-spilled registers equal, slot or pending temporary holds each live spilled value, '
+               'same reads; c06_slots_disjoint_sound); quick tier: a size-bounded selection of rounds covering every '
+               'target, thorough: all rounds. The real load/store instructions are abstracted to XLoad/XStore of the '
+               'slot (tagging by the harness from what insert_code_before/after received); their address operands and '
+               'in-order address computation are checked structurally in Python (check_spill_py) and by the entry-live '
+               'check (c06_entry_live_sound). Hand models (tie H) of FlowGraph.calculate_liveness '
+               '(c06_liveness_model_fixpoint) and InterferenceGraph.calculate_interference (c06_interference_complete) '
+               'are compared with the real algorithms\' results per frame (frames up to 80 nodes / 160 instructions). Pairs of two physical registers named by the input program are not '
                'checked (their aliasing is the hardware\'s, identical before and after) unless the instruction is deleted.')
 TRUSTED = ['frame dump (this module): used/defined registers, clobbers, ismove, jumps are read through the same '
            'Instruction properties the allocator reads; register identity = Python object identity for virtual '
@@ -42,7 +49,9 @@ TRUSTED = ['frame dump (this module): used/defined registers, clobbers, ismove, 
            'the liveness table is computed inside Coq by an unverified iteration and then validated by check_live '
            '(nothing trusted there); jump targets are passed as instruction indices computed by this module',
            'that the machine instructions really read/write only what they declare is property C07, not C06']
-ASSUMPTIONS = ['abstract machine: a write changes every aliasing register by an arbitrary function of (program point, both '
+ASSUMPTIONS = ['spill model: the target\'s generated spill load/store instructions behave as a load/store of the slot '
+               'allocated for the spilled node (instruction selection, not register allocation)',
+               'abstract machine: a write changes every aliasing register by an arbitrary function of (program point, both '
                'registers, value written, old contents); instruction results and branch decisions are arbitrary '
                'functions of the values read; an instruction flagged ismove with one use and one def copies',
                'spill slots and memory are outside the abstract machine; spill rewriting is checked structurally in Python']
@@ -50,9 +59,11 @@ MANIFEST = {
     'text': 'translation_validation: a Coq-verified certificate checker decides, for every frame the real allocator '
             'produced for the generated programs on each target, that the colouring preserves every live value '
             '(simulation for all instruction semantics and all states); proved once, run per frame',
-    'note': 'trusted: frame dump and CFG reading (tools/props/c06.py), arch.info.alias, Coq kernel; that instructions '
-            'read/write what they declare is C07. Spill rewriting: Python structural check per frame + a local Coq lemma '
-            '(partial). The guarantee is per validated frame, not for all programs. No axioms.',
+    'note': 'trusted: frame dump, CFG reading and spill-code tagging (tools/props/c06.py), arch.info.alias, Coq kernel; that '
+            'instructions read/write what they declare is C07; real load/store semantics are abstracted. Spill rounds: '
+            'verified validator check_spill (whole-program simulation) + Python structural check. Hand models of '
+            'calculate_liveness / calculate_interference with theorems, compared per frame. The guarantee is per validated '
+            'frame, not for all programs. No axioms.',
     'technique': 'verified validator (Coq) + per-frame certificates + interpreter-confirmed rejections',
 }
 
@@ -64,6 +75,7 @@ class Capture:
     def __init__(self):
         self.frames = []
         self.installed = False
+        self.current = None
 
     @staticmethod
     def rkey(reg):
@@ -140,6 +152,23 @@ class Capture:
         rec['own_live_out'] = {ii(k): set(vk(x) for x in v) for k, v in rec['own_live_out'].items()}
         for sp in rec['spills']:
             sp['temps'] = [(vk(t), b) for t, b in sp['temps']]
+        if rec.get('fg'):
+            for nd in rec['fg']:
+                for f in ('gen', 'kill', 'lin', 'lout'):
+                    nd[f] = [vk(x) for x in nd[f]]
+        if rec.get('igm'):
+            for i in rec['igm']['ins']:
+                for f in ('defs', 'clob', 'lout'):
+                    i[f] = [vk(x) for x in i[f]]
+            rec['igm']['edges'] = [(vk(a), vk(b)) for a, b in rec['igm']['edges']]
+        info = {}
+        for k, v in rec.get('ins_info', {}).items():
+            v = dict(v)
+            v['anchor'] = ii(v['anchor'])
+            if v['tag']:
+                v['tag'] = (v['tag'][0], vk(v['tag'][1]))
+            info[ii(k)] = v
+        rec['ins_info'] = info
         rec.pop('keep_r', None)
         # spill rewriting is checked right away so that only the last round has to be kept
         rec['n_rounds'] = len(rec['rounds'])
@@ -149,6 +178,12 @@ class Capture:
         except Exception:   # noqa: BLE001
             rec['entry_undef'] = set()
         rec['spill_errs'] = check_spill_py(rec) if len(rec['rounds']) > 1 else []
+        rec['spill_cases'] = []
+        for r in range(len(rec['rounds']) - 1):
+            try:
+                rec['spill_cases'].append(encode_spill_round(rec, r))
+            except Exception as ex:   # noqa: BLE001
+                rec['spill_cases'].append((None, 'encoder: %r' % (ex,)))
         if rec['rounds']:
             rec['rounds'] = [rec['rounds'][-1]]
             rec['entry'] = None
@@ -167,10 +202,12 @@ class Capture:
             rec = {'name': frame.name, 'arch': self.arch.name, 'regs': {}, 'rounds': [], 'spills': []}
             rec['entry'] = cap.snap(frame, rec['regs'], self.arch)
             self._c06 = rec
+            cap.current = rec
             try:
                 r = orig_alloc(self, frame)
             finally:
                 self._c06 = None
+                cap.current = None
             rec['after'] = cap.snap(frame, {}, self.arch)
             rec['after_phys'] = []
             unc = []
@@ -249,14 +286,36 @@ class Capture:
             fr.alloc = alloc
             o_after, o_before = fr.insert_code_after, fr.insert_code_before
 
+            slot_id = len(rec['spills'])          # one slot per spilled node
+
+            def note(instruction, code, side):
+                # tag the inserted instructions; the slot access is the last inserted instruction that
+                # defines a register the anchor reads (load) / reads a register the anchor defines (store)
+                info = rec.setdefault('ins_info', {})
+                rec.setdefault('keep_r', []).append(code)
+                anchor_regs = set(id(x) for x in (instruction.used_registers if side == 'before'
+                                                  else instruction.defined_registers))
+                acc = None
+                for ci in code:
+                    regs = ci.defined_registers if side == 'before' else ci.used_registers
+                    hit = [x for x in regs if id(x) in anchor_regs]
+                    if hit:
+                        acc = (ci, hit[0])
+                for ci in code:
+                    info[id(ci)] = {'side': side, 'anchor': id(instruction), 'slot': slot_id, 'tag': None}
+                if acc is not None:
+                    info[id(acc[0])]['tag'] = ('L' if side == 'before' else 'S', cap.rkey(acc[1]))
+
             def ins_after(instruction, code):
                 code = list(code)
                 rec['spill_seq_max'] = max(rec.get('spill_seq_max', 0), len(code))
+                note(instruction, code, 'after')
                 return o_after(instruction, code)
 
             def ins_before(instruction, code):
                 code = list(code)
                 rec['spill_seq_max'] = max(rec.get('spill_seq_max', 0), len(code))
+                note(instruction, code, 'before')
                 return o_before(instruction, code)
             fr.insert_code_after, fr.insert_code_before = ins_after, ins_before
             temps = [(cap.rkey(t), getattr(type(t), 'bitsize', None)) for t in node.temps]
@@ -267,6 +326,59 @@ class Capture:
                 del fr.insert_code_after
                 del fr.insert_code_before
                 rec['spills'].append({'round': len(rec['rounds']), 'temps': temps, 'slots': slots})
+
+        # helper algorithms (tie H): record inputs/results of the last round's calculate_liveness and
+        # calculate_interference for small frames
+        from ppci.codegen import flowgraph as fgm, interferencegraph as igm
+        self.helper_orig = (fgm.FlowGraph, fgm.FlowGraph.__dict__.get('calculate_liveness'),
+                            igm.InterferenceGraph, igm.InterferenceGraph.__dict__.get('calculate_interference'))
+        o_live, o_interf = fgm.FlowGraph.calculate_liveness, igm.InterferenceGraph.calculate_interference
+
+        def calculate_liveness(fg):
+            r = o_live(fg)
+            rec = cap.current
+            try:
+                if rec is not None:
+                    nodes = list(fg.nodes)
+                    if len(nodes) <= 80:
+                        ix = {id(n): k for k, n in enumerate(nodes)}
+                        rec['fg'] = [{'gen': [cap.rkey(x) for x in n.gen], 'kill': [cap.rkey(x) for x in n.kill],
+                                      'succ': [ix[id(m)] for m in n.successors],
+                                      'lin': [cap.rkey(x) for x in n.live_in],
+                                      'lout': [cap.rkey(x) for x in n.live_out]} for n in nodes]
+                    else:
+                        rec['fg'] = None
+            except Exception as ex:   # noqa: BLE001
+                rec['fg'] = None
+                rec['helper_err'] = repr(ex)[:100]
+            return r
+
+        def calculate_interference(ig, flowgraph):
+            r = o_interf(ig, flowgraph)
+            rec = cap.current
+            try:
+                if rec is not None:
+                    inss = [ins for n in flowgraph for ins in n.instructions]
+                    if len(inss) <= 160:
+                        edges = set()
+                        for n in ig.nodes:
+                            a = cap.rkey(next(iter(n.temps)))
+                            for m in n.adjecent:
+                                b = cap.rkey(next(iter(m.temps)))
+                                if a != b:
+                                    edges.add((a, b) if repr(a) < repr(b) else (b, a))
+                        rec['igm'] = {'ins': [{'defs': [cap.rkey(x) for x in i.defined_registers],
+                                               'clob': [cap.rkey(x) for x in i.clobbers],
+                                               'lout': [cap.rkey(x) for x in i.live_out]} for i in inss],
+                                      'edges': sorted(edges, key=repr)}
+                    else:
+                        rec['igm'] = None
+            except Exception as ex:   # noqa: BLE001
+                rec['igm'] = None
+                rec['helper_err'] = repr(ex)[:100]
+            return r
+        fgm.FlowGraph.calculate_liveness = calculate_liveness
+        igm.InterferenceGraph.calculate_interference = calculate_interference
 
         cls.alloc_frame = alloc_frame
         if orig_init is not None:
@@ -281,6 +393,11 @@ class Capture:
         for n, f in self.orig.items():
             if f is not None:
                 setattr(self.cls, n, f)
+        fgc, fl, igc, il = self.helper_orig
+        if fl is not None:
+            fgc.calculate_liveness = fl
+        if il is not None:
+            igc.calculate_interference = il
         self.installed = False
 
 
@@ -680,6 +797,16 @@ class Gen:
             head = 'function %s %s(%s)' % (rty, name, ', '.join('%s %s' % (t, p) for t, p in zip(ptys, params)))
         return head + ' {\n  ' + '\n  '.join(body) + '\n}\n', nparams
 
+    def smallcallprogram(self, seq):
+        """a small caller with values live across calls (clobbers): small enough for the helper-model
+        correspondence of calculate_interference"""
+        t = self.types[0]
+        kw = '' if self.lang == 'c' else 'function '
+        head = '' if self.lang == 'c' else 'module q%d;\n' % seq
+        return (head + '%s%s sq%d(%s a, %s b) { return a + b; }\n' % (kw, t, seq, t, t)
+                + '%s%s sc%d(%s a, %s b) {\n  %s\n  %s\n  return x + y + a - b;\n}\n' % (
+                    kw, t, seq, t, t, self.decl(t, 'x', 'sq%d(a, b)' % seq), self.decl(t, 'y', 'sq%d(b, x)' % seq)))
+
     def spillprogram(self, seq):
         """dedicated spill-forcing program: one callee and one function with 10-13 values live across the call"""
         t = self.rng.choice(self.types)
@@ -909,6 +1036,105 @@ def encode_frame(rec):
     return term, stats
 
 
+def encode_spill_round(rec, r):
+    """Coq term check_spill ... for the rewriting round r -> r+1 (program before, rewritten program with
+    the inserted instructions marked and the slot accesses tagged, fact certificate)"""
+    a, b = rec['rounds'][r], rec['rounds'][r + 1]
+    info = rec.get('ins_info', {})
+    ida = {i['id']: k for k, i in enumerate(a)}
+    idb = {i['id']: k for k, i in enumerate(b)}
+    if [i['id'] for i in b if i['id'] in ida] != [i['id'] for i in a]:
+        return (None, 'original instructions reordered or dropped')
+    slot_of = {}
+    for n, spn in enumerate(rec['spills']):
+        if spn['round'] == r + 1:
+            for t, _ in spn['temps']:
+                slot_of[t] = n
+    regs_a = set()
+    for i in a:
+        regs_a |= set(i['uses']) | set(i['defs']) | set(i['clob'])
+    fresh = set()
+    for i in b:
+        for x in i['uses'] + i['defs']:
+            if x[0] == 'V' and x not in regs_a:
+                fresh.add(x)
+    phys, vid = {}, {}
+
+    def rid(k):
+        if k[0] == 'P':
+            return phys.setdefault((k[1], k[2]), len(phys))
+        return vid.setdefault(k, 1000 + len(vid))
+    lin_a, lout_a, sc_a = liveness(a)
+    sc_b = succs_of(b)
+
+    def instr(i, sc):
+        return 'mkInstr %s %s %s %s [%s]' % (zl([rid(x) for x in i['uses']]), zl([rid(x) for x in i['defs']]),
+                                            zl([rid(x) for x in i['clob']]), 'true' if i['move'] else 'false',
+                                            ';'.join('%d%%nat' % j for j in sc))
+    xp, marks = [], []
+    for p, i in enumerate(b):
+        ins = i['id'] not in ida
+        marks.append('true' if ins else 'false')
+        tag = info.get(i['id'], {}).get('tag') if ins else None
+        if tag and tag[0] == 'L':
+            xp.append('XLoad %d %d' % (rid(tag[1]), info[i['id']]['slot']))
+        elif tag and tag[0] == 'S':
+            xp.append('XStore %d %d' % (info[i['id']]['slot'], rid(tag[1])))
+        else:
+            xp.append('XI (%s)' % instr(i, sc_b[p] if i['jumps'] else []))
+    ptxt = [instr(i, sc_a[k] if i['jumps'] else []) for k, i in enumerate(a)]
+    # ---- fact certificate
+    facts = []
+    k = 0
+    for p, i in enumerate(b):
+        F = []
+        ins = i['id'] not in ida
+        inf = info.get(i['id']) if ins else None
+        anchor_b = idb.get(inf['anchor']) if inf else (p if not ins else None)
+        pend = set()
+        if anchor_b is not None and b[anchor_b]['id'] in ida:
+            ai, bi = a[ida[b[anchor_b]['id']]], b[anchor_b]
+            upairs = [(u2, u) for u2, u in zip(bi['uses'], ai['uses']) if u2 != u]
+            dpairs = [(d2, d) for d2, d in zip(bi['defs'], ai['defs']) if d2 != d]
+            if p <= anchor_b:
+                # loads of this anchor's pre-sequence that were already executed
+                q = anchor_b - 1
+                loaded = set()
+                while q >= 0 and b[q]['id'] not in ida:
+                    t = info.get(b[q]['id'], {})
+                    if q < p and t.get('anchor') == bi['id'] and t.get('tag') and t['tag'][0] == 'L':
+                        loaded.add(t['tag'][1])
+                    q -= 1
+                for u2, u in upairs:
+                    if u2 in loaded:
+                        F.append('(LReg %d,%d)' % (rid(u2), rid(u)))
+            else:
+                for d2, d in dpairs:
+                    spos = None
+                    q = anchor_b + 1
+                    while q < len(b) and b[q]['id'] not in ida:
+                        t = info.get(b[q]['id'], {})
+                        if t.get('anchor') == bi['id'] and t.get('tag') == ('S', d2):
+                            spos = q
+                        q += 1
+                    if spos is None or p <= spos:
+                        pend.add(d)
+                        F.append('(LReg %d,%d)' % (rid(d2), rid(d)))
+        live = lin_a[k] if k < len(lin_a) else set()
+        for t in sorted(live):
+            if t in slot_of and t not in pend:
+                F.append('(LSlot %d,%d)' % (slot_of[t], rid(t)))
+        facts.append('[' + ';'.join(sorted(set(F))) + ']')
+        if not ins:
+            k += 1
+    special = sorted(set(rid(t) for t in slot_of) | set(rid(x) for x in fresh))
+    physl = sorted(rid(kx) for kx in rec['regs'] if kx[0] == 'P')
+    term = 'check_spill %s %s [%s] [%s] [%s] [%s]' % (
+        zl(physl), zl(special), ';\n'.join(xp), ';'.join(marks), ';\n'.join(ptxt), ';'.join(facts))
+    slots = [(n, sp['slots'][0][0], sp['slots'][0][1]) for n, sp in enumerate(rec['spills']) if len(sp['slots']) == 1]
+    return (term, {'round': r, 'inserted': marks.count('true'), 'spilled': len(slot_of), 'slots': slots})
+
+
 def digest(rec):
     import hashlib
     prog = last_round(rec)
@@ -955,6 +1181,17 @@ def collect_frames(ctx, cap, budget_frames, targets):
                 fr['opt'] = opt
                 fr['src_seq'] = seq
                 fr['src'] = src
+            if err:
+                fails.setdefault(march, {}).setdefault(err.split(':')[0], 0)
+                fails[march][err.split(':')[0]] += 1
+        for opt in ((2,) if ctx.quick() else (0, 2)):
+            seq += 1
+            src = g.smallcallprogram(seq)
+            before = len(cap.frames)
+            err = compile_program(march, g.lang, src, opt)
+            nprog += 1
+            for fr in cap.frames[before:]:
+                fr.update({'march': march, 'opt': opt, 'src_seq': seq, 'src': src, 'family': 'smallcall'})
             if err:
                 fails.setdefault(march, {}).setdefault(err.split(':')[0], 0)
                 fails[march][err.split(':')[0]] += 1
@@ -1108,9 +1345,136 @@ def validate_frames(ctx, frames):
     return recs, stats_all, bad
 
 
+def balanced_cases(ctx, name, imports, cases, quick_shards=8):
+    """run_cases with shards of similar size; returns bad indices into `cases` (None on coqc failure)"""
+    if not cases:
+        return []
+    nsh = max(1, min(quick_shards, len(cases))) if len(cases) <= 160 else (len(cases) + 15) // 16
+    order = sorted(range(len(cases)), key=lambda k: -len(cases[k][0]))
+    chunks = [order[j::nsh] for j in range(nsh)]
+    size = max(len(c) for c in chunks)
+    padded, back = [], []
+    for c in chunks:
+        for k in c:
+            padded.append(cases[k])
+            back.append(k)
+        for _ in range(size - len(c)):
+            padded.append(('true', True))
+            back.append(None)
+    bad = ctx.run_cases(name, imports, padded, shard=size, timeout=1500)
+    if bad is None and ctx.failed_stages and ctx.failed_stages[-1][0] == 'cases_' + name:
+        # a coqc process can fail transiently when another builder rebuilds shared .vo files: retry once
+        ctx.failed_stages.pop()
+        ctx.cov['evaluations'] -= len(padded)
+        ctx.log('retrying case files of', name)
+        bad = ctx.run_cases(name, imports, padded, shard=size, timeout=1500)
+    ctx.cov['evaluations'] -= len(padded) - len(cases)
+    if bad is None:
+        return None
+    return sorted(back[k] for k in bad if back[k] is not None)
+
+
+def validate_helper_models(ctx, frames):
+    """tie H: the hand models of calculate_liveness / calculate_interference against the real results"""
+    lcases, lown, icases, iown = [], [], [], []
+    for f in frames:
+        phys, vid = {}, {}
+
+        def rid(k):
+            if k[0] == 'P':
+                return phys.setdefault((k[1], k[2]), len(phys))
+            return vid.setdefault(k, 1000 + len(vid))
+        if f.get('fg'):
+            nl = ';'.join('mkNode %s %s [%s]' % (zl([rid(x) for x in n['gen']]), zl([rid(x) for x in n['kill']]),
+                                                ';'.join('%d%%nat' % s for s in n['succ'])) for n in f['fg'])
+            impl = ';'.join('(%s,%s)' % (zl([rid(x) for x in n['lin']]), zl([rid(x) for x in n['lout']])) for n in f['fg'])
+            lcases.append(('liveness_agrees [%s] 400%%nat [%s]' % (nl, impl), True))
+            lown.append(f)
+        if f.get('igm') and len(f['igm']['edges']) <= 2500:
+            g = f['igm']
+            prog = ';'.join('mkInstr [] %s %s false []' % (zl([rid(x) for x in i['defs']]), zl([rid(x) for x in i['clob']]))
+                            for i in g['ins'])
+            live = ';'.join(zl([rid(x) for x in i['lout']]) for i in g['ins'])
+            edges = ';'.join('(%d,%d)' % (rid(a), rid(b)) for a, b in g['edges'])
+            icases.append(('interference_agrees [%s] [%s] [%s]' % (prog, live, edges), True))
+            iown.append(f)
+    if ctx.quick():
+        # frames with clobbering instructions (calls) first, then small ones
+        order = sorted(range(len(icases)), key=lambda k: (not any(i['clob'] for i in iown[k]['igm']['ins']),
+                                                          len(icases[k][0])))[:20]
+        icases, iown = [icases[k] for k in order], [iown[k] for k in order]
+        lcases, lown = lcases[:30], lown[:30]
+    imports = ['Spec.RegAllocSpec', 'Model.RegAllocCheck', 'Model.RegAllocHelpers']
+    for name, cases, own, fn in (('livemodel', lcases, lown, 'FlowGraph.calculate_liveness'),
+                                 ('interfmodel', icases, iown, 'InterferenceGraph.calculate_interference')):
+        bad = balanced_cases(ctx, name, imports, cases, quick_shards=4)
+        ctx.cov['stages']['helper_model_cases_' + name] = len(cases)
+        for k in (bad or []):
+            f = own[k]
+            ctx.failed_stages.append(('correspondence', 'hand model of %s disagrees with the implementation on frame %s/%s'
+                                      % (fn, f.get('march'), f['name'])))
+
+
+def validate_spill_rounds(ctx, spilled):
+    cases, owner = [], []
+    slot_cases, slot_owner = [], []
+    for f in spilled:
+        for term, st in f.get('spill_cases', []):
+            if term is None:
+                cases.append(('false', True))
+                owner.append((f, st))
+            else:
+                cases.append((term, True))
+                owner.append((f, st))
+        sl = [(n, sp['slots'][0][0], sp['slots'][0][1]) for n, sp in enumerate(f['spills']) if len(sp['slots']) == 1]
+        if sl:
+            slot_cases.append(('slots_disjoint [%s]' % ';'.join(
+                '(%d,%s,%d)' % (n, str(o) if o >= 0 else '(%d)' % o, z) for n, o, z in sl), True))
+            slot_owner.append(f)
+    imports = ['Spec.RegAllocSpec', 'Spec.SpillSpec', 'Model.RegAllocCheck', 'Model.SpillCheck']
+    ctx.cov['stages']['spill_rounds_total'] = len(cases)
+    if ctx.quick():
+        # coqc spends its time parsing the literals: in the quick tier validate a size-bounded selection
+        # (every target first, then the smallest rounds); the thorough tier validates every round
+        budget = 450000
+        order = sorted(range(len(cases)), key=lambda k: len(cases[k][0]))
+        seen_t, pick = set(), []
+        for k in order:
+            t = owner[k][0].get('march')
+            if t not in seen_t:
+                seen_t.add(t)
+                pick.append(k)
+        pick += [k for k in order if k not in pick]
+        sel, tot = [], 0
+        for k in pick:
+            if tot + len(cases[k][0]) > budget and len(sel) >= len(seen_t):
+                continue
+            sel.append(k)
+            tot += len(cases[k][0])
+        cases = [cases[k] for k in sel]
+        owner = [owner[k] for k in sel]
+    bad = balanced_cases(ctx, 'spill', imports, cases)
+    ctx.cov['stages']['spill_rounds_validated_in_coq'] = len(cases)
+    for k in (bad or []):
+        f, st = owner[k]
+        ctx.cov['disagreements_checked'] = ctx.cov.get('disagreements_checked', 0) + 1
+        if f['spill_errs']:
+            continue    # reported below with the concrete structural finding
+        ctx.failed_stages.append(('spill-validator', 'check_spill rejected %s/%s round %s; the Python structural check '
+                                  'finds nothing (theorem c06_check_spill_sound not applicable to this frame)'
+                                  % (f.get('march'), f['name'], st if not isinstance(st, dict) else st.get('round'))))
+    bad2 = balanced_cases(ctx, 'slots', imports, slot_cases) if slot_cases else []
+    for k in (bad2 or []):
+        f = slot_owner[k]
+        ctx.violation({'fn': 'GraphColoringRegisterAllocator.rewrite_program', 'key': 'slots:' + f.get('march', ''),
+                       'args': [f.get('march'), f['name']], 'expected': 'pairwise disjoint spill slots of positive size',
+                       'actual': [sp['slots'] for sp in f['spills']], 'source': f.get('src', ''), 'opt_level': f.get('opt')})
+
+
 def run(ctx):
     ok, _ = ctx.build(['Proofs/C06_regalloc.vo', 'Proofs/C06_compact.vo', 'Proofs/C06_spill.vo',
-                       'Model/RegAllocCheck.vo', 'Lib/Val.vo'])
+                       'Proofs/C06_spillprog.vo', 'Proofs/C06_helpers.vo', 'Model/RegAllocCheck.vo',
+                       'Model/SpillCheck.vo', 'Model/RegAllocHelpers.vo', 'Lib/Val.vo'])
     if ok:
         ctx.check_props('Props/C06.v')
     cap = Capture()
@@ -1159,7 +1523,11 @@ def run(ctx):
                              'validator': 'accepted' if (bad is not None and recs.index(rec) not in bad) else 'rejected'})
     else:
         search(ctx, frames)
-    # spill rewriting: structural correspondence (Python)
+    # spill rewriting: every round through the verified validator check_spill (tie V) ...
+    if ok:
+        validate_spill_rounds(ctx, spilled)
+        validate_helper_models(ctx, frames)
+    # ... and the structural correspondence in Python (addresses/ordering of the real load/store code)
     nsp = 0
     for f in spilled:
         errs = f['spill_errs']
